@@ -237,8 +237,16 @@ class Extractor(object):
     if m.cls is not None and m.cls.name == 'ofp_header' and m.name == 'pack' and self.cls.name != 'ofp_header':
       return [Item('hdr', 8, 'header', src=m.node)]
     acc = None
+    augs = []
     for t, v, st, k in q.stores_in(m.node, nested=False):
-      if isinstance(t, ast.Name) and k == 'augassign' and isinstance(st.op, ast.Add): acc = t.id; break
+      if isinstance(t, ast.Name) and k == 'augassign' and isinstance(st.op, ast.Add) and t.id not in augs: augs.append(t.id)
+    # the accumulator is the grown name that is returned as it is; a name grown with += but then used as one piece of a larger
+    # expression (return b''.join((header, fixed, data))) is a local byte string: its pieces are spliced in where it is used
+    returned = [r.value.id for r in q.returns_of(m.node) if r.value is not None and isinstance(r.value, ast.Name)]
+    for nm_ in augs:
+      if nm_ in returned: acc = nm_; break
+    if acc is None and augs and not any(r.value is not None and not isinstance(r.value, ast.Name) for r in q.returns_of(m.node)): acc = augs[0]
+    sub_accs = set(a_ for a_ in augs if a_ != acc)
     # a list of pieces joined at the end: parts = [a, b]; parts.append(c); return b''.join(parts)
     lacc = None
     joined = set(norm(c.args[0]) for c in calls_in(m.node) if call_name(c) == 'join' and c.args and isinstance(c.args[0], ast.Name))
@@ -263,6 +271,8 @@ class Extractor(object):
           for x in s.value.elts: L.extend(self.pack_expr(x, locals_))
         elif isinstance(s, ast.AugAssign) and isinstance(s.target, ast.Name) and s.target.id == acc:
           L.extend(self.pack_expr(s.value, locals_))
+        elif isinstance(s, ast.AugAssign) and isinstance(s.target, ast.Name) and s.target.id in sub_accs and isinstance(s.op, ast.Add) and s.target.id in locals_:
+          locals_[s.target.id] = ast.BinOp(left=locals_[s.target.id], op=ast.Add(), right=s.value)
         elif isinstance(s, ast.Assign) and len(s.targets) == 1 and isinstance(s.targets[0], ast.Name) and s.targets[0].id == acc:
           del L[:]; L.extend(self.pack_expr(s.value, locals_))
         elif isinstance(s, ast.Assign) and len(s.targets) == 1 and isinstance(s.targets[0], ast.Name):
